@@ -15,6 +15,7 @@ type belem struct {
 	text string
 	name string // nested block name (kind block)
 	wrap string // "", if1, if0, for
+	inc  []*btmpl // kind inc: the chain (root ... member) of the template that is included; text = its file
 }
 
 type btmpl struct {
@@ -98,6 +99,8 @@ func c10Src(t *btmpl, elems []belem) string {
 			sb.WriteString("{{ tick() }}")
 		case "setv":
 			sb.WriteString("{% set sv = \"" + e.text + "\" %}")
+		case "inc":
+			sb.WriteString("{% include \"" + e.text + "\" %}")
 		case "block":
 			b := "{% block " + e.name + " %}" + c10Src(t, t.defs[e.name]) + "{% endblock %}"
 			switch e.wrap {
@@ -160,6 +163,17 @@ func (r *c10Ref) elems(t *btmpl, es []belem, blockName string, defIdx int) {
 			fmt.Fprintf(&r.out, "#%d", r.ticks)
 		case "setv":
 			r.vars["sv"] = e.text
+		case "inc":
+			// the included template is rendered "directly": as the document of ITS chain (whoever extends it, the
+			// includer too), in a scope copied from the includer's, with the execution's counter
+			savedVars, savedChain := r.vars, r.chain
+			r.vars = map[string]string{}
+			for k, v := range savedVars {
+				r.vars[k] = v
+			}
+			r.chain = e.inc
+			r.elems(e.inc[0], e.inc[0].doc, "", 0)
+			r.vars, r.chain = savedVars, savedChain
 		case "super":
 			if defIdx > 0 {
 				// the parent definition runs in a scope of its own: it sees the bindings as they are NOW; what it binds is gone afterwards
@@ -579,6 +593,37 @@ func c10Run(c *C) {
 		// and the member itself is still what it was
 		if !render(member, mchain, "after it was included from other documents") {
 			return
+		}
+		// a template that EXTENDS the member and also INCLUDES it (once or twice) from a block it overrides: the included
+		// parent is rendered directly - without this child's (or anybody's) overrides
+		var mnames []string
+		for _, t := range mchain {
+			mnames = append(mnames, t.order...)
+		}
+		if len(mnames) > 0 {
+			bn := mnames[g.r.Intn(len(mnames))]
+			hp := &btmpl{file: "/host_incparent.tpl", parent: member.file, level: 9, defs: map[string][]belem{}, order: []string{bn}}
+			body := []belem{{kind: "text", text: "[HP:"}, {kind: "inc", text: member.file, inc: mchain}}
+			if g.r.Bool() {
+				body = append(body, belem{kind: "text", text: "|"}, belem{kind: "super"})
+			}
+			if g.r.Chance(30) {
+				body = append(body, belem{kind: "text", text: "|"}, belem{kind: "inc", text: member.file, inc: mchain})
+			}
+			body = append(body, belem{kind: "text", text: "]"})
+			hp.defs[bn] = body
+			hp.doc = []belem{{kind: "block", name: bn}}
+			files[hp.file] = hp.source()
+			hchain := append(append([]*btmpl{}, mchain...), hp)
+			if c10Expected(hchain) != c10Cyclic {
+				if !render(hp, hchain, "a template that extends AND includes its parent") {
+					return
+				}
+				if !render(member, mchain, "after a child that also includes it was compiled and rendered") {
+					return
+				}
+				c.Cover("extends_and_includes_its_parent")
+			}
 		}
 	}
 	c.Cover(fmt.Sprintf("depth_%d", depth))
